@@ -55,13 +55,14 @@ void InvariantMixedDiscreteDistribution::updateDistribution()
     add(cats[i], (1. - p_) * probs[i]);
   }
 
-  intMinMax_->setLowerBound(dist_->getLowerBound(), !dist_->strictLowerBound());
-  intMinMax_->setUpperBound(dist_->getUpperBound(), !dist_->strictUpperBound());
+  intMinMax_->setLowerBound(dist_->getLowerBound(), dist_->strictLowerBound());
+  intMinMax_->setUpperBound(dist_->getUpperBound(), dist_->strictUpperBound());
 
+  // the invariant is a class value: it belongs to the domain
   if (invariant_ <= intMinMax_->getLowerBound())
-    intMinMax_->setLowerBound(invariant_, true);
+    intMinMax_->setLowerBound(invariant_, false);
   if (invariant_ >= intMinMax_->getUpperBound())
-    intMinMax_->setUpperBound(invariant_, true);
+    intMinMax_->setUpperBound(invariant_, false);
 
   numberOfCategories_ = distribution_.size();
 
